@@ -172,7 +172,7 @@ theorem spec_readWeights_fse (ws bytes : List Nat) (h4 : 4 ≤ ws.length) (h257 
     Spec.Huffman.readWeights (bytes.length :: (bytes ++ tail)) = some (ws, 1 + bytes.length) := by
   have hne : ws ≠ [] := by intro h; rw [h] at h4; simp at h4
   obtain ⟨et, al, probs, T, hbuild, hT, hsc, hstart, hsize, hal5, hdesc⟩ :=
-    Zstd.Proofs.SeqTables.seq_table_bridge_gen2 ws 6 12 12 (by decide) (by decide) (by decide) (by decide)
+    Zstd.Proofs.SeqTables.seq_table_bridge_gen2 ws 6 255 12 (by decide) (by decide) (by decide) (by decide)
       (by decide) (by decide) hne hle
   obtain ⟨w1, D, hwt, hw1, hD8, hread⟩ := hdesc WInv_new (by simp)
   simp only [List.nil_append] at hw1
